@@ -96,6 +96,15 @@ Qed.
 
 (* ---------------------------------------------------------------- balance *)
 
+(* the index of the child that has grown (the one the deletion continues in): one to the left when
+   the child was merged into its left sibling *)
+Definition grown (p p' : tree) (i : nat) : nat :=
+  if (length (n_kids p') <? length (n_kids p))%nat && (0 <? i)%nat then (i - 1)%nat else i.
+
+Ltac grown_tac :=
+  unfold grown; cbn [n_kids]; rewrite ?app_length; cbn [length]; rewrite ?app_length; cbn [length];
+  repeat (match goal with |- context [(?a <? ?b)%nat] => destruct (Nat.ltb_spec a b) end); cbn [andb]; lia.
+
 Lemma balance_spec lo h key ea eb ka c kb :
   length ka = length ea -> length kb = length eb ->
   wfn lo (S h) (Node false (ea ++ eb) (ka ++ c :: kb)) ->
@@ -110,7 +119,8 @@ Lemma balance_spec lo h key ea eb ka c kb :
     all_lt ea1 key /\ all_gt eb1 key /\
     wfn (length (ea ++ eb) - 1) (S h) (Node false (ea1 ++ eb1) (ka1 ++ c1 :: kb1)) /\
     elements (Node false (ea1 ++ eb1) (ka1 ++ c1 :: kb1)) = elements (Node false (ea ++ eb) (ka ++ c :: kb)) /\
-    (t_min t < length (n_elts c1))%nat.
+    (t_min t < length (n_elts c1))%nat /\
+    length ka1 = grown (Node false (ea ++ eb) (ka ++ c :: kb)) (Node false (ea1 ++ eb1) (ka1 ++ c1 :: kb1)) (length ka).
 Proof.
   intros H1 H2 Hw Hne Hc Hs Hlt Hgt.
   pose proof (t_min_lt_max t Ht) as Htm.
@@ -144,6 +154,7 @@ Proof.
       * rw_app (elements_split [] eb' [] m kb' eq_refl H2'). rw_app (elements_split2 [] pe eb' [] c r kb' eq_refl H2').
         now rewrite Hme.
       * unfold t_min, t_max in *. lia.
+      * grown_tac.
     + destruct Hst as (c' & re & r' & Hst & Hcw' & Hrw' & Hcl & Hrl & He & Hin). rewrite Hst. cbn [bind].
       exists [], (re :: eb'), [], c', (r' :: kb'). cbn [app length]. split_ands.
       * reflexivity.
@@ -155,6 +166,7 @@ Proof.
       * rw_app (elements_split2 [] re eb' [] c' r' kb' eq_refl H2'). rw_app (elements_split2 [] pe eb' [] c r kb' eq_refl H2').
         now rewrite He.
       * lia.
+      * grown_tac.
   - (* there is a left sibling *)
     destruct (list_last_cases ea) as [->|(ea' & pe & ->)]; [rewrite app_length in H1; cbn in H1; lia|].
     assert (H1' : length ka' = length ea') by (rewrite !app_length in H1; cbn in H1; lia).
@@ -186,6 +198,7 @@ Proof.
         -- rewrite (elements_split ea' [] ka' m []), (elements_split2 ea' pe [] ka' l c []) by assumption.
            now rewrite Hme.
         -- unfold t_min, t_max in *. lia.
+        -- grown_tac.
       * destruct eb as [|pe2 eb']; [discriminate|].
         inversion Hkb as [|? ? Hrw Hkb']; subst.
         assert (H2' : length kb' = length eb') by (cbn in H2; lia).
@@ -213,6 +226,7 @@ Proof.
            ++ rewrite (elements_split ea' (pe2 :: eb') ka' m (r :: kb')), (elements_split2 ea' pe (pe2 :: eb') ka' l c (r :: kb')) by assumption.
               now rewrite Hme.
            ++ unfold t_min, t_max in *. lia.
+           ++ grown_tac.
         -- destruct Hst2 as (c' & re & r' & Hst2 & Hcw' & Hrw' & Hcl & Hrl & He & Hin). rewrite Hst2. cbn [bind].
            exists (ea' ++ [pe]), (re :: eb'), (ka' ++ [l]), c', (r' :: kb').
            rewrite <- !app_assoc. cbn [app]. split_ands.
@@ -233,6 +247,7 @@ Proof.
               replace (ka' ++ l :: c :: r :: kb') with ((ka' ++ [l]) ++ c :: r :: kb') by (now rewrite <- app_assoc).
               rewrite E1, E2. now rewrite He.
            ++ lia.
+           ++ grown_tac.
     + destruct Hst as (l' & le & c' & Hst & Hlw2 & Hcw' & Hll & Hcl & He & Hin). rewrite Hst. cbn [bind].
       exists (ea' ++ [le]), eb, (ka' ++ [l']), c', kb.
       rewrite <- !app_assoc. cbn [app]. split_ands.
@@ -246,6 +261,7 @@ Proof.
       * rewrite (elements_split2 ea' le eb ka' l' c' kb), (elements_split2 ea' pe eb ka' l c kb) by assumption.
         now rewrite He.
       * lia.
+      * grown_tac.
 Qed.
 
 (* ---------------------------------------------------------------- the recursive step *)
@@ -314,7 +330,7 @@ Proof.
   pose proof (wfn_len t Ht _ _ _ Hcw) as Hcl.
   destruct (Nat.eqb_spec (length (n_elts c)) (t_min t)) as [Hmin|Hmin].
   - destruct (balance_spec lo h key ea eb ka c kb H1 H2 Hw0 Hne Hmin Hs Hlt Hgt)
-      as (ea1 & eb1 & ka1 & c1 & kb1 & -> & H1' & H2' & Hlt1 & Hgt1 & Hw1 & He1 & Hc1).
+      as (ea1 & eb1 & ka1 & c1 & kb1 & -> & H1' & H2' & Hlt1 & Hgt1 & Hw1 & He1 & Hc1 & _).
     cbn [bind n_elts].
     assert (Hs1 : ksorted (elements (Node false (ea1 ++ eb1) (ka1 ++ c1 :: kb1)))) by now rewrite He1.
     pose proof (node_es_sorted t Ht _ _ _ Hw1 Hs1) as Hes1. cbn [n_elts] in Hes1.
